@@ -114,6 +114,8 @@ type GraphDesc struct {
 	RootKind string // ptr, val, slice, iface
 	Roots    []int
 	Outside  string // "", mapself, sliceself, ifaceptrself, typep : placed in node 0
+	Inside   string // "", pslice, pmap, parr: a self cycle through a pointer to slice/map/array only, in node InsideAt's EI
+	InsideAt int
 }
 
 // ---- builder: Go values and Coq heap from the same description ----
@@ -353,6 +355,30 @@ func (b *built) fill(d *GraphDesc) {
 		b.cells[c] = fmt.Sprintf("VPtr %d", c)
 		b.nodes[0].I = p
 		b.cells[0] = replaceField(b.cells[0], 5, fmt.Sprintf("VIface (VPtr %d)", c))
+	}
+	// cycles whose only pushed pointer is a pointer to a slice / map / array (inside the property)
+	if d.Inside != "" {
+		c1 := alloc("")
+		switch d.Inside {
+		case "pslice":
+			ps := new([]interface{})
+			*ps = []interface{}{ps}
+			b.nodes[d.InsideAt].EI = ps
+			c2 := alloc(fmt.Sprintf("VArr [VIface (VPtr %d)]", c1))
+			b.cells[c1] = fmt.Sprintf("VSlice %d", c2)
+		case "pmap":
+			pm := new(map[string]interface{})
+			*pm = map[string]interface{}{"x": pm}
+			b.nodes[d.InsideAt].EI = pm
+			c2 := alloc(fmt.Sprintf("VArr [VIface (VPtr %d)]", c1))
+			b.cells[c1] = fmt.Sprintf("VMap %d", c2)
+		case "parr":
+			pa := new([1]interface{})
+			pa[0] = pa
+			b.nodes[d.InsideAt].EI = pa
+			b.cells[c1] = fmt.Sprintf("VArr [VIface (VPtr %d)]", c1)
+		}
+		b.cells[d.InsideAt] = replaceField(b.cells[d.InsideAt], 7, fmt.Sprintf("VIface (VPtr %d)", c1))
 	}
 	// root
 	switch d.RootKind {
@@ -680,6 +706,9 @@ func reachable(d *GraphDesc) (seen []bool, cyc bool) {
 	for _, rt := range d.Roots {
 		dfs(rt)
 	}
+	if d.Inside != "" && seen[d.InsideAt] {
+		cyc = true
+	}
 	return
 }
 
@@ -806,6 +835,7 @@ func repaired(d *GraphDesc) *GraphDesc {
 		}
 	}
 	c.Outside = ""
+	c.Inside = ""
 	return &c
 }
 
@@ -887,8 +917,103 @@ func descJSON(d *GraphDesc) interface{} {
 	return x
 }
 
+var skipIDs map[int]bool
+
+// supervise runs the worker; when a case kills it (fatal stack overflow is not recoverable) or hangs it, the
+// case is recorded as a failure with its description and the worker is restarted without it.
+func supervise() {
+	var skips []string
+	var fails []vh.Failure
+	pf := fmt.Sprintf("%s/c20_prefail_%d.json", os.TempDir(), os.Getpid())
+	defer os.Remove(pf)
+	for attempt := 0; attempt < 4; attempt++ {
+		bs, _ := json.Marshal(fails)
+		os.WriteFile(pf, bs, 0o644)
+		args := append([]string{}, os.Args[1:]...)
+		args = append(args, "-worker", "-skip", strings.Join(skips, ","), "-prefail", pf)
+		cmd := exec.Command(os.Args[0], args...)
+		var so, se bytes.Buffer
+		cmd.Stdout, cmd.Stderr = &so, &se
+		if err := cmd.Start(); err != nil {
+			fmt.Println("supervisor: cannot start worker:", err)
+			os.Exit(2)
+		}
+		done := make(chan error, 1)
+		go func() { done <- cmd.Wait() }()
+		var err error
+		how := "died"
+		select {
+		case err = <-done:
+		case <-time.After(240 * time.Second):
+			cmd.Process.Kill()
+			err = <-done
+			how = "hung"
+		}
+		if err == nil {
+			os.Stdout.Write(so.Bytes())
+			return
+		}
+		// find the case that was running
+		last := ""
+		for _, l := range strings.Split(so.String(), "\n") {
+			if strings.HasPrefix(l, "BEGIN ") {
+				last = l
+			}
+		}
+		var id int
+		var cjs string
+		if n, _ := fmt.Sscanf(last, "BEGIN %d", &id); n != 1 {
+			os.Stdout.Write(so.Bytes())
+			os.Stderr.Write(tail(se.Bytes(), 3000))
+			os.Exit(3)
+		}
+		if i := strings.Index(last, "{"); i >= 0 {
+			cjs = last[i:]
+		}
+		var cj map[string]interface{}
+		json.Unmarshal([]byte(cjs), &cj)
+		what := "Encode exhausted the stack in-process (fatal) on a graph that must give an error or succeed"
+		class := "stack-overflow"
+		if how == "hung" {
+			what, class = "Encode did not return in-process on a graph that must give an error or succeed", "hang"
+		} else if !strings.Contains(se.String(), "stack overflow") && !strings.Contains(se.String(), "goroutine stack exceeds") {
+			what, class = "worker process died in-process (not a stack overflow)", "worker-died"
+			if cj == nil {
+				cj = map[string]interface{}{}
+			}
+			cj["stderr"] = string(tail(se.Bytes(), 400))
+		}
+		fails = append(fails, vh.Failure{Stream: "supervisor", Class: class, What: what, Case: cj})
+		skips = append(skips, fmt.Sprint(id))
+		if len(fails) >= 3 {
+			break
+		}
+	}
+	// several cases killed the worker: report them without going on
+	sum := vh.NewSummary("supervisor only: the worker process was killed by " + fmt.Sprint(len(fails)) + " cases")
+	for _, f := range fails {
+		sum.FailC(f.Stream, f.Class, f.What, f.Case)
+		sum.Count("supervisor.killed", "")
+	}
+	sum.Print()
+}
+
+func tail(b []byte, n int) []byte {
+	if len(b) > n {
+		return b[len(b)-n:]
+	}
+	return b
+}
+
 func runCase(id int, c caseCfg, cv *vh.Cases, sum *vh.Summary, stream string) {
+	if skipIDs[id] {
+		return
+	}
 	d := c.desc
+	{
+		bs, _ := json.Marshal(map[string]interface{}{"desc": d, "chk": c.chk, "raw": c.raw, "canonical": c.canon, "seed_index": id, "stream": stream})
+		fmt.Printf("BEGIN %d %s\n", id, bs)
+	}
 	b := newBuilt(d)
 	heap1, root1 := b.heapTerm(), b.rootT
 	cj := map[string]interface{}{"desc": descJSON(d), "chk": c.chk, "raw": c.raw, "canonical": c.canon, "seed_index": id, "stream": stream}
@@ -1050,14 +1175,37 @@ func main() {
 	nGraph := flag.Int("graphs", 300, "random graphs, in-process")
 	nChild := flag.Int("children", 6, "graphs run in child processes (stack exhaustion / hang expected)")
 	cases := flag.String("cases", "/verif/build/c20/cases", "directory for the model case files")
+	worker := flag.Bool("worker", false, "worker mode (internal): run the cases; the supervisor restarts it when a case kills it")
+	skip := flag.String("skip", "", "worker: case ids to skip (they killed an earlier worker)")
+	prefail := flag.String("prefail", "", "worker: file with failures recorded by the supervisor")
 	flag.Parse()
 	if *child {
 		childMain()
 		return
 	}
+	if !*worker {
+		supervise()
+		return
+	}
+	skipIDs = map[int]bool{}
+	for _, x := range strings.Split(*skip, ",") {
+		var v int
+		if _, err := fmt.Sscanf(x, "%d", &v); err == nil {
+			skipIDs[v] = true
+		}
+	}
 	r := vh.NewRng(vh.SeedFromEnv())
 	sum := vh.NewSummary("graph: random adjacency over node type N (*N, **N, []*N, map[string]*N, interface{} holding ptr/pp/slice/map/[]interface{}/map[string]interface{}, embedded struct, *[]*N, *map[string]*N, [2]*N) x {dag, arbitrary} x CheckCircularRef x root kind x 5 formats, ops Encode/Encode/repair+Reset/Encode; leaves: every unrepresentable kind (and its representable twin) at a random node, optionally behind a pointer; child: cyclic without the option and cycles through map/slice/*interface{}/type P *P only, in a child process; distinct by (stream, cyclic, option, leaf, root kind, nodes, outcome)")
 	cv := vh.NewCases(*cases, "From Coq Require Import List NArith.\nFrom Verif Require Import Base.Outcome C20.Model C20.Corr.\nImport ListNotations.", "case", "mismatches", 40)
+	if *prefail != "" {
+		if bs, err := os.ReadFile(*prefail); err == nil {
+			var fs []vh.Failure
+			json.Unmarshal(bs, &fs)
+			for _, f := range fs {
+				sum.FailC(f.Stream, f.Class, f.What, f.Case)
+			}
+		}
+	}
 	id := 0
 	gr := r.Fork()
 	for i := 0; i < *nGraph; i++ {
@@ -1068,6 +1216,10 @@ func main() {
 			if okSize(d) {
 				break
 			}
+		}
+		if gr.Chance(1, 8) {
+			d.Inside = []string{"pslice", "pmap", "parr"}[gr.Intn(3)]
+			d.InsideAt = gr.Intn(len(d.Nodes))
 		}
 		chk := true
 		if _, cyc := reachable(d); !cyc && gr.Chance(1, 3) {
@@ -1106,11 +1258,21 @@ func main() {
 	}
 	// child-process runs
 	cr := r.Fork()
-	outs := []string{"", "mapself", "sliceself", "", "ifaceptrself", "typep"}
+	outs := []string{"", "mapself", "sliceself", "pslice", "ifaceptrself", "typep", "pmap", "", "parr"}
 	for i := 0; i < *nChild; i++ {
 		o := outs[i%len(outs)]
 		var d *GraphDesc
-		if o == "" {
+		if o == "pslice" || o == "pmap" || o == "parr" {
+			for {
+				d = randGraph(cr, genMode{dag: true, density: 3}, "", false)
+				if treeSize(d) < 4000 {
+					break
+				}
+			}
+			d.Inside, d.InsideAt = o, 0
+			d.RootKind, d.Roots = "ptr", []int{0}
+			runCase(id, caseCfg{desc: d, chk: false, canon: false, child: true}, cv, sum, "child")
+		} else if o == "" {
 			for {
 				d = randGraph(cr, genMode{dag: false, density: 4}, "", false)
 				b := newBuilt(d)
